@@ -57,7 +57,7 @@ pub struct Case {
     pub max: u64,
     pub default: Option<u64>,
     /// 0 = build().min().max()[.default()].finish(), 1 = finish_with(max, min), 2 = build().finish() (type bounds),
-    /// 3 = build()[.default()].max().min(), 4 = build().max()[.default()].min(), 5 = NumericBuilder::new(v, max, min)[.default()]
+    /// 3 = build()[.default()].max().min(), 4 = build().max()[.default()].min(), 5 = NumericBuilder::new(v, max, min)[.default()], 6 = every setter called twice (last call counts)
     pub path: u8,
 }
 
@@ -146,6 +146,11 @@ where
         4 => match default {
             Some(d) => nv.build().max(max).default(d).min(min).finish(),
             None => nv.build().max(max).min(min).finish(),
+        },
+        // every setter called twice: what was configured last is what counts
+        6 => match default {
+            Some(d) => nv.build().default(tmin).max(tmin).min(tmax).default(tmax).min(min).max(max).default(d).finish(),
+            None => nv.build().max(tmin).min(tmax).max(max).min(min).finish(),
         },
         5 => {
             let b = scpi_contrib::scpi1999::NumericBuilder::new(nv, max, min);
@@ -390,7 +395,7 @@ fn case_strategy() -> impl Strategy<Value = Case> {
                 1 => proptest::collection::vec(any::<u8>(), 0..5).prop_map(Tok::Block),
                 1 => "[0-9,:]{0,5}".prop_map(Tok::Expr),
             ];
-            (Just(ty), tok, Just((lo, hi, def)), prop_oneof![4 => Just(0u8), 2 => Just(1u8), 1 => Just(2u8), 1 => Just(3u8), 1 => Just(4u8), 1 => Just(5u8)])
+            (Just(ty), tok, Just((lo, hi, def)), prop_oneof![4 => Just(0u8), 2 => Just(1u8), 1 => Just(2u8), 1 => Just(3u8), 1 => Just(4u8), 1 => Just(5u8), 1 => Just(6u8)])
         })
         .prop_map(|(ty, tok, (lo, hi, def), path)| Case { ty, tok, min: lo.to_bits(), max: hi.to_bits(), default: def.map(f64::to_bits), path })
 }
@@ -407,7 +412,7 @@ fn run(e: &Engine) {
         kw.parts() * TYS.len() as u64,
         move |p, f| {
             let ty = TYS[(p / kwr.parts()) as usize];
-            kwr.run(p % kwr.parts(), &mut |s| s.is_empty() || f(Case { ty, tok: Tok::Chr(String::from_utf8_lossy(s).into_owned()), min: 2f64.to_bits(), max: 100f64.to_bits(), default: Some(7f64.to_bits()), path: (s.len() % 6) as u8 }))
+            kwr.run(p % kwr.parts(), &mut |s| s.is_empty() || f(Case { ty, tok: Tok::Chr(String::from_utf8_lossy(s).into_owned()), min: 2f64.to_bits(), max: 100f64.to_bits(), default: Some(7f64.to_bits()), path: (s.len() % 7) as u8 }))
         },
         check,
     );
